@@ -64,12 +64,37 @@ def execute(L, R, a):
     return rec, rec2
 
 
-def execute_agg(L, by):
+def execute_agg(L, by, hseed=None):
+    """With rng: a history on one grouped object - aggregate, change group membership in place without changing
+    the length (edit a key, replace an item, reverse), aggregate again; the second result is judged on the items
+    as they are now."""
     import dataiter as di
     rec = {"L": L, "R": [], "a": {"kind": "aggregate", "by": by}, "out": [], "cls": True, "err": "", "keys": [], "groups": []}
+    import random
+    rng = None if hseed is None else random.Random(hseed)
+    if rng is not None:
+        rec["history"] = {"L0": L, "seed": hseed}
     try:
         dl = di.ListOfDicts([to_py(x) for x in L])
-        out = dl.group_by(*by).aggregate(n=len, ids=lambda g: [x.lt for x in g])
+        if rng is not None and len(dl):
+            g = dl.group_by(*by)
+            g.aggregate(n=len)
+            for _ in range(rng.randint(1, 2)):
+                i = rng.randrange(len(g))
+                how = rng.choice(["key", "item", "reverse"])
+                if how == "key":
+                    list.__getitem__(g, i)[rng.choice(by)] = rng.choice([None, 0, 1])
+                elif how == "item":
+                    cur = dict(list.__getitem__(g, i))
+                    cur[rng.choice(by)] = rng.choice([None, 0, 1])
+                    g[i] = cur
+                else:
+                    list.reverse(g)
+            rec["L"] = L = [to_abs(x) for x in list.__iter__(g)]
+            rec["a"] = {"kind": "aggregate", "by": by, "after": "aggregate-then-in-place-change"}
+            dl = g
+        out = dl.group_by(*by).aggregate(n=len, ids=lambda g: [x.lt for x in g]) if "after" not in rec["a"] else \
+            dl.aggregate(n=len, ids=lambda g: [x.lt for x in g])
         rec["cls"] = observe_cls(out) and all(x["n"] == len(x["ids"]) for x in out)
         rec["keys"] = [[-1 if x[c] is None else x[c] for c in by] for x in out]
         rec["groups"] = [list(x["ids"]) for x in out]
@@ -80,7 +105,7 @@ def execute_agg(L, by):
 
 def sig_of(rec):
     a = rec["a"]
-    return {"kind": a["kind"], "nby": len(a["by"]), "renamed": a.get("renamed", False),
+    return {"kind": a["kind"], "nby": len(a["by"]), "renamed": a.get("renamed", False), "after": a.get("after", ""),
             "left_empty": len(rec["L"]) == 0, "right_empty": len(rec["R"]) == 0}
 
 
@@ -114,7 +139,8 @@ def run(ctx):
     for l in rights:
         for by in (["k"], ["j"], ["k", "j"], ["j", "k"]):
             records.append(execute_agg(litems(l), by))
-            count["aggregate"] = count.get("aggregate", 0) + 1
+            records.append(execute_agg(litems(l), by, rng.randrange(10**6)))
+            count["aggregate"] = count.get("aggregate", 0) + 2
             ctx.count((json.dumps(l), "agg", tuple(by)), len(l["k"]) >= 2)
     bad = ctx.validate("LoDJoinTrace", records)
     for i, clause in bad:
@@ -135,7 +161,8 @@ def replay(ctx, rp):
     for case in rp["cases"]:
         rec0 = case["rec"]
         if rec0["a"]["kind"] == "aggregate":
-            recs = [execute_agg(rec0["L"], rec0["a"]["by"])]
+            h = rec0.get("history")
+            recs = [execute_agg(h["L0"], rec0["a"]["by"], h["seed"]) if h else execute_agg(rec0["L"], rec0["a"]["by"])]
         else:
             a = dict(rec0["a"])
             if a["kind"] == "right_unchanged":
